@@ -332,6 +332,8 @@ func TestC20(t *testing.T) {
 	r := lib.Start("C20", "exploration")
 	nSeq := r.N(400, 20000)
 	r.Cases(nSeq, 0, func(idx int) { runSequential(r, idx) })
+	nConc := r.N(40, 1000)
+	r.Cases(nConc, 4, func(idx int) { runConcurrent(r, idx) })
 	r.Assume("the canonical chain underneath (blockchain.Blockchain head / historical state reads on the memory DB, legacy state) answers correctly - that is C03's subject; here it is only the base of the overlay")
 	r.Assume("single writer, as documented for ChainStorage (the poller goroutine); readers are arbitrary")
 	r.Finish("sequential model-based scripts", max(1, nSeq/4))
